@@ -47,7 +47,8 @@ def sdv__str(glob_pattern: StringSdv) -> MatcherSdv[str]:
 
 
 def _match_path(model: Path, pattern: str) -> bool:
-    return model.match(pattern)
+    # an empty pattern matches no path (Path.match raises ValueError for it)
+    return pattern != '' and model.match(pattern)
 
 
 def _match_str(model: str, pattern: str) -> bool:
